@@ -845,6 +845,23 @@ fn c15_group<G: GroupApi>(run: &Run) {
             |i| json!({"op": "c15.unary", "group": G::NAME, "A": ct[i as usize].json()}),
         );
     }
+    {
+        // (thorough also has these values inside the complete pair table) every special rescaling - 2, -1, the cube roots
+        // of unity (same Y, other Z), sqrt(-1) (same X up to sign), stored-word specials - against the small set, both orders
+        let ss = values_scaled_special::<G>(run.seed);
+        let sm = values_small::<G>(run.seed);
+        let (nf, nm) = (ss.len() as u64, sm.len() as u64);
+        run.grid(
+            Spec { name: &format!("c15.{}.scaled-special", G::NAME), n: nf * nm, classes: &[], required: &[] },
+            |i| {
+                let (a, b) = (&ss[(i / nm) as usize], &sm[(i % nm) as usize]);
+                let mut k = c15_pair::<G>(a, b)?;
+                k += c15_pair::<G>(b, a)?;
+                Ok(Tally::new(k, true, 0))
+            },
+            |i| json!({"op": "c15.pair2", "group": G::NAME, "A": ss[(i / nm) as usize].json(), "B": sm[(i % nm) as usize].json()}),
+        );
+    }
     if run.tier == Tier::Thorough {
         let sf = values_scaled_fp::<G>(run.seed, Tier::Thorough);
         let sm = values_small::<G>(run.seed);
